@@ -49,6 +49,10 @@ def check(model: Model, run: Run) -> None:
         if short(c) == "PagedResultControl":
             enc = [x for w in ex.wgram[c] for x in walk(w) if x.kind == "encaps"]
             if len(enc) != 1:
+                from ..tlvcheck import value_codec_is_delegated
+                dl = value_codec_is_delegated(model, c)
+                if dl:
+                    raise AnalysisError(f"the value of {short(c)} is encoded / decoded by a separate codec object ({dl}): its grammar is not extracted")
                 run.ob("B10-paged-value-encapsulated", False)
                 cmp_.fail("B10-paged-value-encapsulated", c, "no encapsulated value", "PagedResultControl value is not an encapsulated BER SEQUENCE", ex.wgram[c][0])
             else:
